@@ -431,7 +431,21 @@ class Cases:
     def __init__(self):
         self.terms, self.info, self.defs, self.case_defs = [], [], [], []
 
-    def add(self, mode, sbx, ids, pre, post, settings_p, refused, ops, docs, base=None, info=None):
+    @staticmethod
+    def discovery(sbx, pre, settings, docs):
+        """candidates: regular files (or links to files) of the sandbox whose name ends in one of the
+        configured source extensions; found: what the project object holds"""
+        if settings is None or docs is None:
+            return [], None
+        exts = set(settings.extensions) | set(settings.fixed_extensions) | set(settings.extra_filetypes.keys())
+        cands = [k for k, e in pre.items()
+                 if k and (e[0] == "f" or (e[0] == "l" and e[4])) and "." in k[-1]
+                 and k[-1].rsplit(".", 1)[1] in exts]
+        found = [sbx.canon.comps(os.path.normpath(str(f.path))) for f in docs.project.allfiles]
+        return cands, found
+
+    def add(self, mode, sbx, ids, pre, post, settings_p, refused, ops, docs, base=None, info=None,
+            settings=None):
         canon = sbx.canon
         pt, pages, _ = proj_term(canon, docs)
         pre_n, pre_m = node_entries(pre, ids, True), meta_entries(pre, ids)
@@ -444,6 +458,7 @@ class Cases:
             post_m_t = coq_entries(post_m)
         post_n_t = coq_entries(post_n) if mode == 0 else "[]"
         out, gd, srcs, excl = settings_p
+        cands, found = self.discovery(sbx, pre, settings, docs)
         i = len(self.terms)
         # one Definition per listing: elaboration of one huge term is superlinear in its size
         mine = [f"Definition k{i}_pre_n : list (path * node) := {pre_n_t}.",
@@ -452,12 +467,13 @@ class Cases:
                 f"Definition k{i}_post_n : list (path * node) := {post_n_t}.",
                 f"Definition k{i}_post_m : list (path * meta) := {post_m_t}.",
                 f"Definition k{i}_pages : list page := {pages}."]
-        term = ("(Build_case %d %s %s %s\n  (%s)\n  (%s)\n  %s\n  %s pkgfs %s\n  %s %s %s %s %s\n  %s\n  %s\n  %s)" % (
+        term = ("(Build_case %d %s %s %s\n  (%s)\n  (%s)\n  %s\n  %s pkgfs %s\n  %s %s %s %s %s\n  %s\n  %s %s\n  %s\n  %s)" % (
             mode, coq_list(f"({coq_path(a)}, {coq_path(b)})" for a, b in sbx.links()),
             coq_path(canon.comps(str(sbx.proj))), coq_path((PKG,)), rcfg_term(canon, sbx.sc), pt, f"k{i}_pages",
             f"k{i}_pre_n", f"k{i}_pre_m", coq_bool(refused), coq_path(out), coq_opt(gd, coq_path),
             coq_list(coq_path(x) for x in srcs), coq_list(coq_path(x) for x in excl),
-            f"k{i}_ops", f"k{i}_post_n", f"k{i}_post_m"))
+            f"k{i}_ops", coq_list(coq_path(c) for c in cands),
+            coq_opt(found, lambda fl: coq_list(coq_path(c) for c in fl)), f"k{i}_post_n", f"k{i}_post_m"))
         mine.append(f"Definition k{i} : case := {term}.")
         self.case_defs.append("\n".join(mine))
         term = f"k{i}"
@@ -523,11 +539,11 @@ def fault_runs(chk, cases, ids, rng, sbx, settings, docs, sp, nfaults, only=None
                       info={"scenario": sbx.sc["name"], "fault_at_call": k, "fault": type(exc).__name__,
                             "error": err, "ops": show_ops(ops), "opts": sbx.sc["opts"],
                             "scenario_def": sbx.template})
-            chk.count(("fault", sbx.sc["name"], k, mode), nontrivial=True)
+            chk.count(("fault", sbx.sc["name"], len(cases.defs), k, mode), nontrivial=True)
             chk.extra["faults_injected"] = chk.extra.get("faults_injected", 0) + 1
 
 
-def finding_scenarios(sbs):
+def finding_scenarios():
     """the two recorded defects, as scenarios (replayed on the implementation on every run)"""
     base = {"output_dir": "./doc", "src_dir": ["./src"], "page_dir": "./pages", "graph": "false",
             "search": "false", "incl_src": "false", "externalize": "false"}
@@ -538,7 +554,7 @@ def finding_scenarios(sbs):
                                               "ordered_subpage: sub/../../../note.md\n", "")}
 
 
-def exclusion_check(chk, rng, sbs_hint=None):
+def exclusion_check(chk, rng):
     """output_dir below a source directory: the copies FORD leaves in <out>/src must not be read as
     sources by the next run (exclude_dir holds output_dir)"""
     sc = {"name": "below-src-twice", "opts": {"output_dir": "./src/doc", "src_dir": ["./src"], "graph": "false",
@@ -669,7 +685,7 @@ def run(chk):
         chosen = rng.sample(fault_names, 2 if quick else 3)
         for sc in scenarios():
             want = (not sc["refuse"]) and sc["name"] in chosen
-            # quick: 36 of the ~150 mutating calls; thorough: every call for the first four, then 60
+            # quick: 40 of the ~150 mutating calls of a write-out; thorough: every call for the first four, then 60
             budget = (40 if quick else (10 ** 6 if done_fault < 4 else 60)) if want else 0
             res = run_sc(sc, faults=budget)
             if want and res and res.get("faulted"):
@@ -687,7 +703,7 @@ def run(chk):
         run_sc(sc)
     # (3) the recorded findings, replayed on the implementation
     replayed = {}
-    for key, sc in finding_scenarios("@SB@").items():
+    for key, sc in finding_scenarios().items():
         r = run_sc(sc, label="finding")
         replayed[key] = len(cases.terms) - 1
     lap("cli+findings")
@@ -740,12 +756,28 @@ def traced_scenario_in(chk, cases, ids, rng, sbx, faults=0, label=None, only=Non
                 "mode": mode, "ops": show_ops(ops), "topmeta": sc["topmeta"], "submeta": sc["submeta"],
                 "cli": sc.get("cli"), "low_level_events": t.nlow, "log": log[-800:] if err else "",
                 "scenario_def": sbx.template}
-        cases.add(mode, sbx, ids, pre, post, sp, refused, ops, None if refused else docs, info=info)
-        chk.count(("run", sc["name"], tuple(sorted((k, str(v)) for k, v in sc["opts"].items())), sc["topmeta"],
-                   sc["submeta"]), nontrivial=True,
-                  sample={"scenario": sc["name"], "output_dir": sc["opts"]["output_dir"],
-                          "graph_dir": sc["opts"].get("graph_dir"), "refused": refused, "error": err,
-                          "operations": len(ops), "low_level_events": t.nlow})
+        cases.add(mode, sbx, ids, pre, post, sp, refused, ops, None if refused else docs, info=info,
+                  settings=settings)
+        topts = sbx.template["opts"]           # with @SB@ for the sandbox path: stable across runs
+        chk.count(("run", sc["name"], tuple(sorted((k, str(v)) for k, v in topts.items())), sc["topmeta"],
+                   sc["submeta"], str(sc.get("cli"))), nontrivial=True,
+                  sample={"scenario": sc["name"], "output_dir": topts["output_dir"],
+                          "graph_dir": topts.get("graph_dir"), "refused": refused, "error": err,
+                          "operations": len(ops), "mutating_calls": t.nlow})
+        dist = chk.extra.setdefault("option_distribution", {})
+        for k in ("media_dir", "css", "favicon", "mathjax_config", "page_dir", "copy_subdir", "graph_dir",
+                  "exclude_dir"):
+            if k in topts:
+                dist[k] = dist.get(k, 0) + 1
+        for k in ("incl_src", "externalize", "search", "graph"):
+            if str(topts.get(k, "")).lower() == "true":
+                dist[k] = dist.get(k, 0) + 1
+        if sc["topmeta"] or sc["submeta"]:
+            dist["page-level copy_subdir/ordered_subpage"] = dist.get("page-level copy_subdir/ordered_subpage", 0) + 1
+        if sc["links"]:
+            dist["with symlinks"] = dist.get("with symlinks", 0) + 1
+        if docs is not None and not refused:
+            chk.extra["discovery_compared"] = chk.extra.get("discovery_compared", 0) + 1
         cnt = chk.extra.setdefault("scenario_counts", {})
         key = label or ("must-refuse" if sc["refuse"] else "placement")
         cnt[key] = cnt.get(key, 0) + 1
@@ -794,8 +826,8 @@ def subprocess_boxes(chk, cases, ids, boxes):
             cases.add(3, sbx, ids, pre, post, sp, refused, [], None,
                       info={"scenario": sbx.sc["name"], "subprocess": True, "rc": rc, "opts": o,
                             "cli": sbx.sc.get("cli"), "links": sbx.sc["links"], "log": log[-600:]})
-            chk.count(("subprocess", sbx.sc["name"], tuple(sorted((k, str(v)) for k, v in o.items()))),
-                      nontrivial=True)
+            chk.count(("subprocess", sbx.sc["name"],
+                       tuple(sorted((k, str(v)) for k, v in sbx.template["opts"].items()))), nontrivial=True)
             chk.extra["subprocess_runs"] = chk.extra.get("subprocess_runs", 0) + 1
             if rc != 0 and not refused:
                 chk.extra.setdefault("runs_failed_otherwise", []).append(
